@@ -28,6 +28,7 @@ CONSTANTS
   CtcArith,   \* BOOLEAN: also comparison / arithmetic / aggregate constraints
   Fmt,        \* "" or a format: emit only models inside that format's fragment
   MaxLevel,   \* bound on behaviour length (safety net)
+  Shape,      \* "" or "chain": restricts the trees that are built (checked on the successor state)
   Walks,      \* 0: exhaustive exploration; n > 0: n seeded random walks ("random larger ones")
   Seed        \* seed of the walks (VERIF_SEED)
 
@@ -146,7 +147,12 @@ RandomStep ==
                                   ELSE \E t \in {PickS(TreesOver(Names(model), CtcBinOps, CtcDepth)
                                             \cup (IF CtcArith THEN ArithTrees(Names(model)) ELSE {}), 14)} : AddConstraint(t)
 
-Next == (IF Walks = 0 THEN Step ELSE RandomStep) /\ UNCHANGED walk
+\* a chain: each relation hangs under the feature created last
+ChainOnly == \A j \in DOMAIN model.rels : model.rels[j].owner = FName(j)
+ShapeOK == Shape = "" \/ (Shape = "chain" /\ ChainOnly)
+Next == /\ TLCGet("level") < MaxLevel
+        /\ (IF Walks = 0 THEN Step ELSE RandomStep) /\ UNCHANGED walk
+        /\ ShapeOK'
 
 Spec == Init /\ [][Next]_vars
 
